@@ -358,15 +358,16 @@ MUTATIONS = [
                         + f' {pathreq.source} to {pathreq.destination} does not pass with {pathreq.tsp_mode}'""")]},
     {'id': 'c13-mode-order-ascending', 'props': ['C13'], 'tests': 'tests/test_automaticmodefeature.py',
      'desc': 'modes of one baud rate explored by ascending bit rate',
-     'edits': [('gnpy/topology/request.py', "key=lambda x: (x['bit_rate'], x['equalization_offset_db']), reverse=True)",
-                "key=lambda x: (x['bit_rate'], x['equalization_offset_db']), reverse=False)")]},
+     'edits': [('gnpy/topology/request.py',
+                "key=lambda x: (x['baud_rate'], x['bit_rate'], x['equalization_offset_db']), reverse=True)",
+                "key=lambda x: (x['baud_rate'], -x['bit_rate'], x['equalization_offset_db']), reverse=True)")]},
     {'id': 'c13-tx-osnr-accumulates', 'props': ['C13'], 'tests': 'tests/test_automaticmodefeature.py',
      'desc': 'transmitter OSNR of explored modes accumulates across the mode loop',
-     'edits': [('gnpy/topology/request.py', "                    del roadm_osnr[-1]\n", "")]},
+     'edits': [('gnpy/topology/request.py', "                del roadm_osnr[-1]\n", "")]},
     {'id': 'c13-gain-clamp-leaks', 'props': ['C13'], 'tests': 'tests/test_automaticmodefeature.py',
      'desc': 'amplifier gains clamped by a previous baud-rate trial are not restored (state leak in the mode search)',
-     'edits': [('gnpy/topology/request.py', """            for amp, gain in zip(amps, initial_gains):
-                amp.effective_gain = gain
+     'edits': [('gnpy/topology/request.py', """                for amp, gain in zip(amps, initial_gains):
+                    amp.effective_gain = gain
 """, "")]},
     {'id': 'c13-penalty-below-table', 'props': ['C13'], 'tests': 'tests/test_automaticmodefeature.py',
      'desc': 'an impairment below the first point of the penalty table gives no penalty instead of blocking',
